@@ -27,21 +27,27 @@ def showO {α} (f : α → String) : Outcome α → String
   | .ok a => f a
   | .panic _ => "PANIC"
 
-def showAnswer (tag : String) (a : Answer) : String :=
-  s!"{tag}[ok files={showO showIdx a.idx} lic={showO showLic a.lic}]"
+/-- the copyright holders of the paragraph found: `<count>:<list>` (`0:` ≠ `1:x`, the list holding
+    one empty string) -/
+def showCpr : Option (List Str) → String
+  | none => "none"
+  | some l => s!"{l.length}:{encList l}"
+
+def showAnswer (tag : String) (a : Answer) (cpr : Outcome (Option (List Str))) : String :=
+  s!"{tag}[ok files={showO showIdx a.idx} lic={showO showLic a.lic} cpr={showO showCpr cpr}]"
 
 def showLossless (tag : String) (r : Except Lossless.Err Doc) (path : Str) : String :=
   match r with
   | .error .notMachineReadable => s!"{tag}[nmr]"
   | .error .parseError => s!"{tag}[perr]"
-  | .ok c => showAnswer tag (Lossless.answer c path)
+  | .ok c => showAnswer tag (Lossless.answer c path) (Lossless.foundCopyright c path)
 
 def showLossy (tag : String) (r : Except Lossy.Err Lossy.Copyright) (path : Str) : String :=
   match r with
   | .error .notMachineReadable => s!"{tag}[nmr]"
   | .error .parseError => s!"{tag}[perr]"
   | .error (.msg m) => s!"{tag}[err:{encStr m}]"
-  | .ok c => showAnswer tag (Lossy.answer c path)
+  | .ok c => showAnswer tag (Lossy.answer c path) (Lossy.foundCopyright c path)
 
 def handle (op : String) (args : List String) : Option String :=
   match op, args with
